@@ -8,7 +8,56 @@ use syn::*;
 
 struct BufOps {
     ops: Vec<String>,
+    locals: Vec<String>,
 }
+/// Local variables of `decode` (bound by `let` or a match-arm pattern), in order of first binding.  They are renamed to
+/// `_v1`, `_v2`, ... in the recorded operations so that renaming a local is not a change of the operation sequence.
+struct Locals(Vec<String>);
+impl<'ast> Visit<'ast> for Locals {
+    fn visit_pat_ident(&mut self, p: &'ast PatIdent) {
+        let n = p.ident.to_string();
+        if n != "buf" && n != "self" && !self.0.contains(&n) {
+            self.0.push(n);
+        }
+        syn::visit::visit_pat_ident(self, p);
+    }
+}
+fn rename_tokens(ts: proc_macro2::TokenStream, locals: &[String]) -> proc_macro2::TokenStream {
+    use proc_macro2::{Group, Ident, TokenTree};
+    let mut out = vec![];
+    let mut prev_dot = false;
+    for t in ts {
+        match t {
+            TokenTree::Ident(i) => {
+                let n = i.to_string();
+                match locals.iter().position(|l| *l == n) {
+                    Some(k) if !prev_dot => out.push(TokenTree::Ident(Ident::new(&format!("_v{}", k + 1), i.span()))),
+                    _ => out.push(TokenTree::Ident(i)),
+                }
+                prev_dot = false;
+            }
+            TokenTree::Group(g) => {
+                let mut ng = Group::new(g.delimiter(), rename_tokens(g.stream(), locals));
+                ng.set_span(g.span());
+                out.push(TokenTree::Group(ng));
+                prev_dot = false;
+            }
+            TokenTree::Punct(p) => {
+                prev_dot = p.as_char() == '.';
+                out.push(TokenTree::Punct(p));
+            }
+            other => {
+                prev_dot = false;
+                out.push(other);
+            }
+        }
+    }
+    out.into_iter().collect()
+}
+fn rtokens<T: quote::ToTokens>(t: &T, locals: &[String]) -> String {
+    rename_tokens(t.to_token_stream(), locals).to_string()
+}
+
 fn norm(s: String) -> String {
     s.replace(" . ", ".").replace(" (", "(").replace("( ", "(").replace(" )", ")").replace(" ,", ",").replace("& ", "&").replace(" :: ", "::").replace(" < ", "<").replace(" >", ">").replace("< ", "<")
 }
@@ -31,14 +80,16 @@ impl<'ast> Visit<'ast> for BufOps {
             // outermost call / method-call chains that touch `buf`
             Expr::MethodCall(_) | Expr::Call(_) if mentions_buf(e) => {
                 // for `a - b` style operands this is reached per operand; record the whole chain once
-                self.ops.push(norm(tokens_of(e)));
+                self.ops.push(norm(rtokens(e, &self.locals)));
             }
             Expr::Unsafe(u) => {
-                self.ops.push(format!("unsafe {{ {} }}", norm(tokens_of(&u.block.stmts.last()))));
+                self.ops.push(format!("unsafe {{ {} }}", norm(rtokens(&u.block.stmts.last(), &self.locals))));
                 syn::visit::visit_expr(self, e);
             }
             Expr::Struct(s) => {
-                self.ops.push(format!("{} {{ {} }}", norm(tokens_of(&s.path)), s.fields.iter().map(|f| norm(tokens_of(f))).collect::<Vec<_>>().join(", ")));
+                // field: value, the shorthand `raw` written out as `raw: raw`; the values with locals renamed
+                let fs = s.fields.iter().map(|f| format!("{}: {}", norm(tokens_of(&f.member)), norm(rtokens(&f.expr, &self.locals)))).collect::<Vec<_>>().join(", ");
+                self.ops.push(format!("{} {{ {} }}", norm(tokens_of(&s.path)), fs));
                 syn::visit::visit_expr(self, e);
             }
             _ => syn::visit::visit_expr(self, e),
@@ -48,7 +99,8 @@ impl<'ast> Visit<'ast> for BufOps {
         // `let raw = ...` : keep the binding name with the operation
         if let (Pat::Ident(i), Some(init)) = (&l.pat, &l.init) {
             if mentions_buf(&init.expr) && matches!(&*init.expr, Expr::MethodCall(_) | Expr::Call(_)) {
-                self.ops.push(format!("let {} = {}", i.ident, norm(tokens_of(&init.expr))));
+                let name = match self.locals.iter().position(|l| *l == i.ident.to_string()) { Some(k) => format!("_v{}", k + 1), None => i.ident.to_string() };
+                self.ops.push(format!("let {} = {}", name, norm(rtokens(&init.expr, &self.locals))));
                 return;
             }
         }
@@ -112,7 +164,9 @@ pub fn translate(repo: &Path) -> String {
                     for it in &im.items {
                         if let ImplItem::Fn(f) = it {
                             if f.sig.ident == "decode" {
-                                let mut v = BufOps { ops: vec![] };
+                                let mut loc = Locals(vec![]);
+                                loc.visit_block(&f.block);
+                                let mut v = BufOps { ops: vec![], locals: loc.0 };
                                 v.visit_block(&f.block);
                                 ops = v.ops;
                             } else {
